@@ -6,9 +6,10 @@ import re
 
 from .base import Result, V
 
-MODULES = ["TickitModel.Props.C18"]
+MODULES = ["TickitModel.Props.C18", "TickitModel.Props.C18Regex"]
 THEOREMS = ["handle_first_match", "handle_unknown_iff", "parse_undecodable", "parse_bytes", "parse_text", "pyStrip_spec",
-            "tcpChunk_matched", "tcpChunk_unknown", "tcpConn_append", "tcpConn_counts"]
+            "tcpChunk_matched", "tcpChunk_unknown", "tcpConn_append", "tcpConn_counts",
+            "accepts_iff_matches", "opt_matches", "plus_matches", "lit_matches"]
 ANCHORS = ["src/tickit/adapters/tcp.py", "src/tickit/adapters/specifications/regex_command.py", "src/tickit/adapters/io/tcp_io.py",
            "src/tickit/adapters/io/http_io.py", "src/tickit/adapters/specifications/http_endpoint.py", "src/tickit/adapters/utils.py",
            "src/tickit/utils/byte_format.py"]
@@ -17,8 +18,10 @@ LEVEL_TEXT = ("Theorems over the command-dispatch model for every byte string an
               "pattern matches the whole message after that command's declared decoding (bytes: raw; text: UTF-8 decode + strip, with Python's "
               "whitespace table; undecodable input matches no text command and falls through), invoked once with the captured groups; otherwise no "
               "handler, no interrupt and the unknown-command reply; the interrupt follows the handler iff the command is declared interrupting; every "
-              "reply other than the empty marker is written once, in order, formatted. PARTIAL: the regular-expression engine itself (re.fullmatch) "
-              "and pydantic/aiohttp are parameters: the pattern oracle is Python's `re` called by the harness independently of tickit. Tie to the "
+              "reply other than the empty marker is written once, in order, formatted. PARTIAL: pattern matching is a parameter of the dispatch model (the oracle is Python's `re`, called by the harness independently of "
+              "tickit); for the fragment literals / classes / `.` / concatenation / alternation / `?*+` a derivative-based matcher is proved equal to "
+              "the denotational semantics of regular expressions and is itself compared with re.fullmatch on generated patterns and strings; capture "
+              "groups, pydantic and aiohttp remain parameters. Tie to the "
               "code: all byte strings of length <= 1 (quick) / <= 2 (thorough) and generated/mutated messages (invalid UTF-8, partial and over-long "
               "matches, surrounding whitespace incl. non-ASCII) against generated command sets with mixed bytes/text commands and the shipped example "
               "adapters, through CommandAdapter.handle_message and the TcpIo handle function with fake streams; HttpIo's interrupt wrapper is run directly.")
@@ -191,9 +194,52 @@ def messages(rng, tier, cmds):
     return out
 
 
+def gen_regex(rng, depth):
+    """(python pattern, AST for the Lean matcher) in the verified fragment"""
+    alphabet = "aP=9x "
+    r = rng.random()
+    if depth == 0 or r < 0.3:
+        k = rng.random()
+        if k < 0.5:
+            c = rng.choice(alphabet)
+            return re.escape(c), {"k": "chr", "c": ord(c)}
+        if k < 0.7:
+            return ".", {"k": "any"}
+        lo, hi, neg = rng.choice([("0", "9", False), ("a", "c", False), ("x", "x", True), ("P", "a", False)])
+        return f"[{'^' if neg else ''}{lo}-{hi}]", {"k": "cls", "r": [[ord(lo), ord(hi)]], "neg": neg}
+    if r < 0.55:
+        a, b = gen_regex(rng, depth - 1), gen_regex(rng, depth - 1)
+        return a[0] + b[0], {"k": "seq", "a": a[1], "b": b[1]}
+    if r < 0.7:
+        a, b = gen_regex(rng, depth - 1), gen_regex(rng, depth - 1)
+        return f"(?:{a[0]}|{b[0]})", {"k": "alt", "a": a[1], "b": b[1]}
+    a = gen_regex(rng, depth - 1)
+    op, k = rng.choice([("*", "star"), ("+", "plus"), ("?", "opt")])
+    return f"(?:{a[0]}){op}", {"k": k, "a": a[1]}
+
+
+def regex_part(rng, n, drv, res):
+    """the verified Lean matcher against Python's re.fullmatch on the command-pattern fragment"""
+    cases = []
+    for _ in range(n):
+        pat, ast = gen_regex(rng, 3)
+        strs = ["", "a", "P=9", "99", "a a", "x", "\n", "P=", "aaa", "9x9"] + ["".join(rng.choice("aP=9x \n") for _ in range(rng.randrange(0, 6))) for _ in range(12)]
+        cases.append((pat, ast, strs))
+    reps = drv.eval([{"op": "regex", "re": ast, "inputs": [[ord(c) for c in s_] for s_ in strs]} for pat, ast, strs in cases])
+    for (pat, ast, strs), rep in zip(cases, reps):
+        rx = re.compile(pat)
+        py = [rx.fullmatch(s_) is not None for s_ in strs]
+        res.case(("regex", pat), nontrivial=any(py) and not all(py))
+        res.count("regex-patterns")
+        if py != rep:
+            k = next(i for i in range(len(py)) if py[i] != rep[i])
+            res.diverge(f"regex {pat!r} on {strs[k]!r}: re.fullmatch {py[k]} Lean matcher {rep[k]}", {"pattern": pat, "input": strs[k]})
+
+
 def run(tier, seed, drv):
     res = Result()
     rng = random.Random(seed)
+    regex_part(random.Random(seed + 5), 300 if tier == "quick" else 4000, drv, res)
     loop = asyncio.new_event_loop()
     asyncio.set_event_loop(loop)
     for si, cmds in enumerate(COMMAND_SETS):
